@@ -387,6 +387,66 @@ def check_diff_reductions(ctx):
                    "np.diff is then empty and no length test guards the call" % (norm(bad[0])[:80] if bad else ""))
 
 
+def input_column_sites(tree):
+    """[(node, k, guarded)]: subscripts M[:, k] / M[..., k] with a literal k >= 1 of a matrix M that has one column per input (element 1 of
+    what self._get_x_y(...) returns).  Column k exists only when the dataset has more than k inputs; guarded = inside an `if` (or after an
+    exit under an `if`) whose test mentions the number of inputs (F, num_inputs)."""
+    out = []
+    for f in [n for n in ast.walk(tree) if isinstance(n, ast.FunctionDef)]:
+        mats = set()
+        n_names = {"F", "num_inputs"}
+        for a in ast.walk(f):
+            if isinstance(a, ast.Assign) and isinstance(a.value, ast.Call) and isinstance(a.value.func, ast.Attribute) and a.value.func.attr == "_get_x_y":
+                for t in a.targets:
+                    if isinstance(t, (ast.Tuple, ast.List)) and len(t.elts) >= 2 and isinstance(t.elts[1], ast.Name):
+                        mats.add(t.elts[1].id)
+            if isinstance(a, ast.Assign) and len(a.targets) == 1 and isinstance(a.targets[0], ast.Name) and \
+                    any(isinstance(x, ast.Attribute) and x.attr == "num_inputs" for x in ast.walk(a.value)):
+                n_names.add(a.targets[0].id)
+        if not mats:
+            continue
+        pm = parent_map(f)
+
+        def mentions_n(test):
+            return any((isinstance(x, ast.Name) and x.id in n_names) or (isinstance(x, ast.Attribute) and x.attr == "num_inputs") for x in ast.walk(test))
+        for n in ast.walk(f):
+            if not (isinstance(n, ast.Subscript) and isinstance(n.value, ast.Name) and n.value.id in mats and isinstance(n.slice, ast.Tuple) and len(n.slice.elts) == 2):
+                continue
+            k = const(n.slice.elts[1])
+            if not (isinstance(k, int) and not isinstance(k, bool) and k >= 1):
+                continue
+            guarded = False
+            cur = n
+            while cur is not None and not guarded:
+                par = pm.get(cur)
+                if isinstance(par, (ast.If, ast.IfExp)) and mentions_n(par.test):
+                    guarded = True
+                for fld in ("body", "orelse"):
+                    b = getattr(par, fld, None)
+                    if isinstance(b, list) and cur in b:
+                        for st in b[:b.index(cur)]:
+                            if isinstance(st, ast.If) and mentions_n(st.test) and st.body and isinstance(st.body[-1], (ast.Return, ast.Raise, ast.Expr, ast.Continue)):
+                                guarded = True
+                cur = par
+            out.append((n, k, guarded))
+    return out
+
+
+def check_input_columns(ctx):
+    """C19.8: -type rank / impact style code that addresses the column of the SECOND input literally must not run for a single input."""
+    prog = ctx.prog
+    ctl = ast.parse("class A:\n def f(self, data):\n  F = data.num_inputs\n  x, y, a, b, c = self._get_x_y(data, ax)\n  d = y[:, 0] - y[:, 1]\n  if F > 1:\n   e = y[:, 1]\n  return d\n")
+    r = input_column_sites(ctl)
+    ctx.control("C19.8", [g for _, _, g in r] == [False, True], "a literal second column of the per-input matrix is reported unless a test on the number of inputs guards it")
+    m = prog.module("verif.output")
+    sites = input_column_sites(m.tree)
+    bad = [(n, k) for n, k, g in sites if not g]
+    ctx.ob("C19.8", "verif.output", not bad, "every literal column k >= 1 of a per-input score matrix is addressed only when there are more than k inputs (%d site(s))" % len(sites),
+           loc=prog.loc(m, bad[0][0]) if bad else None,
+           msg="%s addresses the column of input %d of the matrix returned by _get_x_y without a test on the number of inputs: with a single input file the "
+               "program ends in an unhandled IndexError" % (norm(bad[0][0]) if bad else "", bad[0][1] if bad else 0))
+
+
 def check_empty_reductions(ctx):
     """np.nanmax/np.max/... raise ValueError on an empty array.  When their operand was subset by an np.where selection I, the call
     must be protected by an emptiness test on I (or on something subset by I) that exits or encloses the call; a test on the
@@ -751,6 +811,8 @@ def run(ctx):
     check_guard_use(ctx)
     check_empty_reductions(ctx)
     check_diff_reductions(ctx)
+    ctx.rule("C19.8", "a literal column of the second (third ...) input is addressed only when that many inputs exist")
+    check_input_columns(ctx)
     check_writers(ctx)
     ctx.rule("C19.7", "numeric conversions of row descriptors (strings for time-like axes) are guarded by a string test")
     check_descriptor_formats(ctx)
@@ -766,5 +828,5 @@ CLAIM = {
             "imported or run). The rank rule covers the Metric.compute family only.",
     "technique": "static analysis: library API existence against installed versions, rank lint, registry/MRO hook exhaustiveness, "
                  "nullness guard analysis, guard/use contradiction rule, element-type lint on row descriptors (C19.7); entry-point dispatch from call events "
-                 "(helpers inlined, bound-method locals resolved) and the driver's capability gates by value (surviving axis = None iff documented gate, truth table); C19.5 also min/max-like reductions over np.diff of a list that may have one element; C19.7 position-sensitive propagation of the descriptor table through helpers that return it inside a tuple",
+                 "(helpers inlined, bound-method locals resolved) and the driver's capability gates by value (surviving axis = None iff documented gate, truth table); C19.5 also min/max-like reductions over np.diff of a list that may have one element; C19.7 position-sensitive propagation of the descriptor table through helpers that return it inside a tuple; C19.8 a literal column k >= 1 of the per-input matrix returned by _get_x_y needs an enclosing or preceding test on the number of inputs",
 }
